@@ -11,8 +11,11 @@ import (
 	"errors"
 	"fmt"
 	"io"
+	"net"
 	"net/http"
+	"os"
 	"strings"
+	"syscall"
 	"testing"
 	"testing/synctest"
 	"time"
@@ -64,6 +67,29 @@ type c09Opts struct {
 	// handshake: the stream that is cut is the response stream of the initialize request (a server may
 	// answer any POST with an event stream); the tool call afterwards is answered plainly
 	handshake bool
+	// errKinds: a reconnect attempt that ends in a transport error ends in one of seven kinds of them (as
+	// net/http reports them: connection refused while the server restarts, reset, a dial timeout, a DNS
+	// hiccup, ...): each is one failed attempt against the retry budget, none ends the stream for good
+	errKinds bool
+}
+
+// c09DialTimeout is a net.Error that reports a timeout.
+type c09DialTimeout struct{}
+
+func (c09DialTimeout) Error() string   { return "verif: i/o timeout" }
+func (c09DialTimeout) Timeout() bool   { return true }
+func (c09DialTimeout) Temporary() bool { return true }
+
+func c09TransportErrors() []error {
+	return []error{
+		errC09Net,
+		&net.OpError{Op: "dial", Net: "tcp", Err: os.NewSyscallError("connect", syscall.ECONNREFUSED)},
+		&net.OpError{Op: "read", Net: "tcp", Err: os.NewSyscallError("read", syscall.ECONNRESET)},
+		&net.OpError{Op: "dial", Net: "tcp", Err: c09DialTimeout{}},
+		&net.DNSError{Err: "server misbehaving", Name: "example.test", IsTemporary: true},
+		&net.OpError{Op: "dial", Net: "tcp", Err: os.NewSyscallError("connect", syscall.EHOSTUNREACH)},
+		io.ErrUnexpectedEOF,
+	}
 }
 
 type c09Body struct {
@@ -352,6 +378,10 @@ func (s *c09Script) roundTrip(req *http.Request, n int) (*http.Response, error) 
 			s.maxFails = max(s.maxFails, s.fails)
 			s.connFails++
 			s.maxConnFails = max(s.maxConnFails, s.connFails)
+			if s.o.errKinds {
+				kinds := c09TransportErrors()
+				return nil, kinds[s.ch.Free("transport-error-kind", len(kinds))]
+			}
 			return nil, errC09Net
 		case 2:
 			s.fails++
@@ -589,6 +619,7 @@ func TestVerifC09(t *testing.T) {
 		mk("handshake-stream/ids+priming/retries=1", c09Opts{ids: true, priming: true, maxRetries: 1, handshake: true}),
 		mk("standalone-stream/ids/retries=2", c09Opts{standalone: true, ids: true, maxRetries: 2}),
 		mk("post-stream/ids/12-events/retries=2", c09Opts{ids: true, maxRetries: 2, notes: 12}),
+		mk("post-stream/ids/12-events/retries=2/transport-error-kinds", c09Opts{ids: true, maxRetries: 2, notes: 12, errKinds: true}),
 		mk("post-stream/ids/retries=70/reconnects-always-fail", c09Opts{ids: true, maxRetries: 70, alwaysFail: true, notes: 12}),
 	}
 	if !env.Quick() {
